@@ -120,13 +120,19 @@ def c18_minimal_medium(E, sym=("EX_A_e", "EX_B_e")):
     g = E.real("min_objective_value", 0.01, 12)
     oe = E.pick("open_exchanges", [False, True, 5])
     exports = E.flag("exports")
-    E.note(open_exchanges=str(oe), exports=exports)
+    objc = {"DM_C": 1}
+    if E.flag("model_without_objective"):
+        # nothing to reach a positive objective value with: no medium suffices
+        from optlang.symbolics import Zero
+        m.objective = m.problem.Objective(Zero, sloppy=True)
+        objc = {}
+    E.note(open_exchanges=str(oe), exports=exports, objective=sorted(objc))
     lp = fba_lp(m)
     if oe is not False:
         n = 1000 if oe is True else oe
         for rid in EXCH:
             lp.lb[rid], lp.ub[rid] = -n, n
-    lp.add_row("growth", {"DM_C": 1}, g, None)
+    lp.add_row("growth", objc, g, None)
     imp = {}
     for rid, kind in EXCH.items():
         a = "imp_" + rid
